@@ -226,6 +226,15 @@ export async function run(ctx) {
       ctx.inconclusive("project-does-not-terminate-normally(C04)");
       continue;
     }
+    // a run that did not finish (wall-clock limit of the child process on a loaded machine, CPU budget,
+    // a worker that died) has no output to compare: termination is C04's subject, and a wall-clock
+    // limit is never a verdict
+    const unfinished = runs.filter((r) => ["died", "hang", "timeout", "worker_lost"].includes(r.outcome));
+    if (unfinished.length) {
+      ctx.inconclusive("run-did-not-finish(" + [...new Set(unfinished.map((r) => r.outcome))].sort().join("+") + ")", unfinished.length);
+      runs.splice(0, runs.length, ...runs.filter((r) => !unfinished.includes(r)));
+      if (runs.length < 2) continue;
+    }
     ctx.judged(runs.length);
     const digests = new Map();
     for (const r of runs) {
